@@ -31,6 +31,7 @@ var props = map[string]Prop{
 	"C09": {
 		Stages: []Stage{
 			{Name: "exhaustive", Test: "TestC09Exhaustive", Shards: [2]int{4, 16}, Timeout: [2]time.Duration{5 * min, 20 * min}},
+			{Name: "sourcechars", Test: "TestC09SourceChars", Shards: [2]int{2, 8}, SeedOffset: 2, Timeout: [2]time.Duration{5 * min, 20 * min}},
 			{Name: "random", Test: "TestC09Random", Shards: [2]int{2, 16}, Checks: [2]int{15000, 600000}, SeedOffset: 1, Timeout: [2]time.Duration{5 * min, 20 * min}},
 		},
 		Rule: "exhaustive: every string of length <= 4 (quick) / <= 5 (thorough) over a 27-symbol representative alphabet and over a complementary 26-symbol alphabet (E, X, f, remaining operators and brackets, TAB, CR, space, runes of 2-4 bytes, U+FFFD, a truncated rune, a stray 0xA0 byte), each visited once; random: rapid-generated strings up to 64 bytes built from lexeme fragments, arbitrary bytes and runes. Oracle: partition laws, differential against an independent reference tokenizer (kinds, spans, values, numbers as exact rationals), re-scan idempotence, numeric accessors. Non-trivial = the string contains a multi-character lexeme or drives the scanner through a look-ahead state (after 0, 0x, '.', exponent, backslash, '/', '=', '!', '<', '>', inside quotes) with at least one following character; distinct = distinct strings (exhaustive part distinct by construction, random part by hash).",
@@ -53,9 +54,10 @@ var props = map[string]Prop{
 			{Name: "exhaustive", Test: "TestC07Exhaustive", Shards: [2]int{4, 16}, Timeout: [2]time.Duration{5 * min, 30 * min}},
 			{Name: "exprs", Test: "TestC07Exprs", Shards: [2]int{2, 16}, Checks: [2]int{3000, 80000}, SeedOffset: 1, Timeout: [2]time.Duration{5 * min, 30 * min}},
 			{Name: "programs", Test: "TestC07Programs", Shards: [2]int{4, 16}, Checks: [2]int{2500, 80000}, SeedOffset: 2, Timeout: [2]time.Duration{5 * min, 30 * min}},
+			{Name: "deep", Test: "TestC07Deep", Shards: [2]int{2, 8}, Checks: [2]int{150, 1500}, SeedOffset: 4, Timeout: [2]time.Duration{5 * min, 30 * min}},
 			{Name: "large", Test: "TestC07Large", Shards: [2]int{2, 8}, Checks: [2]int{60, 600}, SeedOffset: 3, Timeout: [2]time.Duration{5 * min, 30 * min}},
 		},
-		Rule: "exhaustive: every token sequence operand (op operand){1..3} (thorough: ..4) over the 16 binary operators with every sign pattern, expected tree from a reference precedence parser written from the C07 statement; exprs: rapid-generated expression trees to depth 7/10 (calls, one index, nested and redundant parentheses, in-lists), two layouts each; programs: rapid-generated programs (all eleven operators with every optional part, lets, empty statements, nested joins, hostile names/strings), two layouts each, keyword synonyms drawn at random; large: flat programs of 50-700 operators, terms, statements or list elements (the grammar has no size limit). Oracle: parser.Parse succeeds and the tree (read through exported fields, positions ignored, sort-term booleans taken from the parser) equals the expected canonical tree; parser.Scan equals the printed token list. Non-trivial = >= 2 binary operators of different kinds, or a sign next to index/call, or an operator with an optional part / column list, or a layout with newline, tab or comment; distinct = canonical tree x layout class.",
+		Rule: "exhaustive: every token sequence operand (op operand){1..3} (thorough: ..4) over the 16 binary operators with every sign pattern, expected tree from a reference precedence parser written from the C07 statement; exprs: rapid-generated expression trees to depth 7/10 (calls, one index, nested and redundant parentheses, in-lists), two layouts each; programs: rapid-generated programs (all eleven operators with every optional part, lets, empty statements, nested joins, hostile names/strings), two layouts each, keyword synonyms drawn at random; large: flat programs of 50-1025 operators, terms, statements or list elements; deep: expressions nested 20-300 levels deep in runs of parentheses, calls, index brackets, in-lists and signs (the grammar has no size or depth limit). Oracle: parser.Parse succeeds and the tree (read through exported fields, positions ignored, sort-term booleans taken from the parser) equals the expected canonical tree; parser.Scan equals the printed token list. Non-trivial = >= 2 binary operators of different kinds, or a sign next to index/call, or an operator with an optional part / column list, or a layout with newline, tab or comment; distinct = canonical tree x layout class.",
 		Assumptions: []string{
 			"the reference expression parser (harness/gen/refparse.go) transcribes the C07 statement",
 			"contextual words asc/desc/nulls/first/last are not used as bare names, `let` is not used as a table name (the property does not say they belong to the grammar there)",
